@@ -10,6 +10,7 @@
   R5  normalisers: result congruent to the input modulo 2 pi and inside the advertised interval on every path, for inputs in (-4 pi, 4 pi)
   R6  polar / spherical <-> Cartesian are mutual inverses (range, azimuth, elevation recovered from r(cos a sin e, sin a sin e, cos e))"""
 import sympy as sp
+from .. import alg
 from .. import sym, mat, vec
 from ..tree import sx, walk, pp, strip_casts
 from .C20 import deep_unwrap
@@ -32,6 +33,19 @@ def run(fx, R, tier):
         check_spherical(fx, R, S)
 
 
+def _c10_domain(s_):
+    """witness ranges (hundredths of a radian) of this property's quantifier: |pitch| <= pi/2 - 1e-3, roll and yaw in (-2 pi, 2 pi)"""
+    n = s_.name.lower()
+    if 'yaxis' in n or 'pitch' in n:
+        return (-156, 156)
+    if 'axis' in n or n in ('roll', 'yaw'):
+        return (-620, 620)
+    return None
+
+
+ANGLE_DOMAIN = [_c10_domain]
+
+
 def check_smart_rotation(fx, R):
     md = rot.model(fx)
     if md is None:
@@ -52,17 +66,19 @@ def check_smart_rotation(fx, R):
             stale = sorted({s.name for s in res.free_symbols if s.name.startswith('old:')})
             if res == sp.zeros(3, 3):
                 R.holds('R1', inst, 'R_ = Rz(z) Ry(y) Rx(x)', loc, 'E-ALG')
+            elif not stale:
+                # a residual that does not reduce is confirmed on witness angles of the QUANTIFIER before it is called a violation
+                alg.check_zero(R, res, 'R1', 'SmartRotation3D::init:formula' if True else inst, 'R_ - Rz Ry Rx = %s (should vanish)%s' % (res.tolist(), (' on path [%s]' % desc) if desc else ''),
+                               'R_ = Rz(z) Ry(y) Rx(x)', loc, domain=ANGLE_DOMAIN[0])
             elif stale:
                 R.violated('R1', 'SmartRotation3D::init:stale-table', 'on the path [%s] init() does not rewrite %s: re-initialising an object keeps the elementary rotation of its previous angles, so R() is not '
                            'the rotation of the new angles' % (desc, stale[:4]), loc, 'E-STATE')
-            else:
-                R.violated('R1', 'SmartRotation3D::init:formula', 'R_ - Rz Ry Rx = %s (should vanish)%s' % (res.tolist(), (' on path [%s]' % desc) if desc else ''), loc, 'E-ALG')
     # R4 on the fresh table
     st = md['fresh'][0]
     M = sp.Matrix(st.fields[('this', 'R_')])
     ortho = sp.simplify(M.T * M - sp.eye(3))
     det = sp.simplify(M.det())
-    R.check(ortho == sp.zeros(3, 3) and det == 1, 'R4', 'SmartRotation3D::R:proper', 'R^T R - I = %s, det = %s' % (ortho.tolist(), det), 'R^T R = I, det = 1', loc, 'E-ALG')
+    alg.check_zero(R, sp.Matrix(list(ortho) + [det - 1]), 'R4', 'SmartRotation3D::R:proper', 'R^T R - I = %s, det = %s' % (ortho.tolist(), det), 'R^T R = I, det = 1', loc, domain=ANGLE_DOMAIN[0])
     # constructor / init(Vector) argument routing
     c3 = [f for f in fx.functions.values() if f.get('ctor') and f.get('cls') == NS + 'SmartRotation3D' and len(f['params']) == 3]
     cv = [f for f in fx.functions.values() if f.get('ctor') and f.get('cls') == NS + 'SmartRotation3D' and len(f['params']) == 1 and not f.get('copyctor')]
